@@ -234,10 +234,10 @@ def regenerate_and_compare(ctx):
     # change of an iteration site of such a container; string/int-hashed containers and never-iterated ones are recorded only
     def matters(d):
         k = tuple(d["entry"].split(":", 1))
-        for side in (cur.get(k), acc.get(k)):
-            if side and (side[0] in ("addr", "hash-ptr")) and side[3]:
-                return True
-        return False
+        now = cur.get(k)
+        # serious = as the code is NOW, the container is address / pointer-hash ordered and iterated, and that is not what
+        # was accepted.  An entry that disappeared or moved under a comparator (e.g. after proposed_fix.diff) is recorded only.
+        return bool(now and now[0] in ("addr", "hash-ptr") and now[3] and acc.get(k) != now)
     serious = [d for d in diffs if matters(d)]
     if diffs:
         ctx.cov["inventory_differences"] = diffs[:20]
